@@ -1,6 +1,48 @@
 import YaegiVerif.Common.Sexp
-/- Line-protocol front end for C10 (glue). Placeholder until the property's model exists. -/
+import YaegiVerif.Model.RunId
+import YaegiVerif.Generated.C10
+/- Line-protocol front end for C10 (glue, not a proof obligation).
+
+   hist EV…     → y=<results>;id=<n> g=<results>
+     EV = (def KIND a b) | (use i VIA x) | (cancel CK)
+     KIND = named | method | closure | mvtop | mvfunc | wrapper      VIA = eval | host
+     CK   = loop | chan | expb | expa   (expired context: stop() before / after Execute refreshes the root id)
+   results = values returned by the uses, in order, joined by ","   ("-" if there is no use)
+   y= is the history run on the run-id model with the extracted facts (a dead definition returns 0 and keeps its
+   state), g= the specification (every definition keeps working). -/
 namespace YaegiVerif.Driver.C10
-open YaegiVerif
-def handle (_args : List Sexp) : String := "unimplemented"
+open YaegiVerif YaegiVerif.RunId
+
+def parseKind : String → Option DefKind
+  | "named" => some .named | "method" => some .method | "closure" => some .closure
+  | "mvtop" => some .methodValueTop | "mvfunc" => some .methodValueInFunc | "wrapper" => some .hostWrapper
+  | _ => none
+
+def parseEv : Sexp → Option Ev
+  | .list [.atom "def", .atom k, a, b] => do
+    let kk ← parseKind k
+    some (.define kk (← a.nat?) (← b.nat?))
+  | .list [.atom "use", i, .atom v, x] => do
+    let via ← (match v with | "eval" => some Via.eval | "host" => some Via.host | _ => none)
+    some (.use (← i.nat?) via (← x.nat?))
+  | .list [.atom "cancel", .atom c] =>
+    (match c with
+     | "loop" => some (.cancelled .busyLoop) | "chan" => some (.cancelled .blockedChan)
+     | "expb" => some (.cancelled .expiredBefore) | "expa" => some (.cancelled .expiredAfter) | _ => none)
+  | _ => none
+
+def showResults (rs : List Nat) : String :=
+  if rs.isEmpty then "-" else ",".intercalate (rs.reverse.map toString)
+
+def handle (args : List Sexp) : String :=
+  match args with
+  | .atom "hist" :: evs =>
+    (match evs.mapM parseEv with
+     | some es =>
+       let y := runHist Generated.C10.facts HSt.init es
+       let g := runSpec HSt.init es
+       s!"y={showResults y.results};id={y.id} g={showResults g.results}"
+     | none => "bad-op")
+  | _ => "bad-op"
+
 end YaegiVerif.Driver.C10
